@@ -141,7 +141,7 @@ Fixpoint ref_chain (e : env) (fuel : nat) (seen : list bytes) (name : bytes)
 (* "Layercake takes its configuration from the first of these sources it encounters: -config,
    LAYERCONF, ~/.layercake, etc/layercake.conf parallel to the executable's directory" *)
 Definition exe_conf (a0 : bytes) : bytes :=
-  path_of (tl (tl (rev (comps a0)))) ++ bs "/etc/layercake.conf"%string.
+  pathdir (pathdir a0) ++ bs "/etc/layercake.conf"%string.
 Definition ref_start (e : env) : bytes :=
   if negb (isempty (sw_conf e)) then sw_conf e else
   let cands :=
@@ -152,13 +152,6 @@ Definition ref_start (e : env) : bytes :=
 
 Fixpoint first_nonempty (l : list bytes) : bytes :=
   match l with [] => [] | x :: r => if isempty x then first_nonempty r else x end.
-
-(* clean absolute path, said without path.Clean: "/" followed by plain components *)
-Definition is_clean_abs (p : bytes) : bool :=
-  match p with
-  | c :: r => Ascii.eqb c sl && (isempty r || forallb plainb (psplit r))
-  | [] => false
-  end.
 
 Inductive refres := RUnspec | RRes (o : outcome).
 
@@ -174,25 +167,31 @@ Definition ref_scope (e : env) (chain : list (bytes * list (N * bytes))) : bool 
   && forallb (fun f => nodup_keys (snd f)
                        && (isempty (file_value (snd f) K_CONF) || is_abs (file_value (snd f) K_CONF))) chain.
 
+(* the effective value of setting k before path treatment: the first one found in
+   command-line switch, environment variable (base path only), the files in chain order, default *)
+Definition raw_value (e : env) (chain : list (bytes * list (N * bytes))) (k : N) : bytes :=
+  first_nonempty ((if k =? K_BASE then [sw_base e; layerroot e] else [])
+                  ++ map (fun f => file_value (snd f) k) chain ++ [doc_default k]).
+
+(* directory settings: clean absolute paths, LAYERS and EXPORTS against the effective base path *)
+Definition resolve_paths (raw : N -> bytes) : refres :=
+  if negb (is_abs (raw K_BASE)) then RRes (OErr ENoAbs) else
+  if negb (is_abs (raw K_CHROOT)) then RUnspec else
+  let base := clean (raw K_BASE) in
+  let dirv := fun k => if is_abs (raw k) then clean (raw k) else clean (base ++ sl :: raw k) in
+  RRes (OOk (map (fun k =>
+    if k =? K_BASE then base
+    else if (k =? K_LAYERS) || (k =? K_EXPORTS) then dirv k
+    else if k =? K_CHROOT then clean (raw k)
+    else raw k) result_keys)).
+
 Definition reference (e : env) : refres :=
   let '(chain, fin) := ref_chain e (ref_fuel e) [] (ref_start e) in
   if negb (ref_scope e chain) then RUnspec else
   match fin with
   | EndFuel => RUnspec
   | EndErr x => RRes (OErr x)
-  | EndOk =>
-    let raw := fun k =>
-      first_nonempty ((if k =? K_BASE then [sw_base e; layerroot e] else [])
-                      ++ map (fun f => file_value (snd f) k) chain ++ [doc_default k]) in
-    if negb (is_abs (raw K_BASE)) then RRes (OErr ENoAbs) else
-    if negb (is_abs (raw K_CHROOT)) then RUnspec else
-    let base := clean (raw K_BASE) in
-    let dirv := fun k => if is_abs (raw k) then clean (raw k) else clean (base ++ sl :: raw k) in
-    RRes (OOk (map (fun k =>
-      if k =? K_BASE then base
-      else if (k =? K_LAYERS) || (k =? K_EXPORTS) then dirv k
-      else if k =? K_CHROOT then clean (raw k)
-      else raw k) result_keys))
+  | EndOk => resolve_paths (raw_value e chain)
   end.
 
 (* "Directory settings come out as clean absolute paths" -- on every successful load *)
@@ -227,10 +226,10 @@ Definition wf (c : case) : bool :=
 
 (* known finding 1: a configuration file that is read uses one of the documented spellings
    WORKDIR, UPPERDIR, CHROOTEXEC, which the implementation rejects as unrecognized *)
-Definition kf (c : case) : N :=
-  let e := c_env c in
+Definition kf_env (e : env) : N :=
   let '(chain, _) := ref_chain e (ref_fuel e) [] (ref_start e) in
   if existsb (fun f => uses_doc_only_key (fst f)) chain then 1 else 0.
+Definition kf (c : case) : N := kf_env (c_env c).
 
 Definition corr (c : case) : bool :=
   outcome_beq (model c) (c_obs c)
